@@ -2,6 +2,7 @@ package harness
 
 import (
 	"fmt"
+	"github.com/platinummonkey/go-concurrency-limits/verifsim"
 	"math"
 
 	"github.com/platinummonkey/go-concurrency-limits/core"
@@ -34,6 +35,7 @@ type algoCfg struct {
 	Measure        string // vegas: "" (default) | minimum | single: caller-supplied no-load measurement
 	Ctor           string // "" = full constructor | "default" = the package's NewDefault… constructor (fields hold its documented parameters) | "default-with-limit" (Vegas)
 	WinDefault     bool   // the windowed wrapper is built with NewDefaultWindowedLimit
+	EmptyName      bool   // the limit is constructed with name "" (metrics then go under the documented "default." prefix)
 }
 
 func (c algoCfg) String() string {
@@ -160,6 +162,12 @@ func maxInt(a, b int) int {
 // buildAlgo constructs the algorithm (and wrappers) for a configuration.
 func buildAlgo(c algoCfg, withRegistry bool) (*algo, error) {
 	a := &algo{Cfg: c}
+	nm := func(s string) string {
+		if c.EmptyName {
+			return ""
+		}
+		return s
+	}
 	var reg core.MetricRegistry
 	if withRegistry {
 		a.Reg = &RecRegistry{}
@@ -171,9 +179,9 @@ func buildAlgo(c algoCfg, withRegistry bool) (*algo, error) {
 	}
 	switch c.Name {
 	case "aimd":
-		l := limit.NewAIMDLimit("aimd", c.Initial, c.Backoff, c.IncreaseBy, reg)
+		l := limit.NewAIMDLimit(nm("aimd"), c.Initial, c.Backoff, c.IncreaseBy, reg)
 		if c.Ctor == "default" {
-			l = limit.NewDefaultAIMDLimit("aimd", reg)
+			l = limit.NewDefaultAIMDLimit(nm("aimd"), reg)
 		}
 		a.Inner = l
 		a.Lo, a.Hi = 1, math.MaxInt32
@@ -185,12 +193,12 @@ func buildAlgo(c algoCfg, withRegistry bool) (*algo, error) {
 		case "single":
 			meas = &measurements.SingleMeasurement{}
 		}
-		l := limit.NewVegasLimitWithRegistry("vegas", c.Initial, meas, c.Max, c.Smoothing, nil, nil, nil, nil, nil, c.ProbeMult, lg, reg)
+		l := limit.NewVegasLimitWithRegistry(nm("vegas"), c.Initial, meas, c.Max, c.Smoothing, nil, nil, nil, nil, nil, c.ProbeMult, lg, reg)
 		switch c.Ctor {
 		case "default":
-			l = limit.NewDefaultVegasLimit("vegas", lg, reg)
+			l = limit.NewDefaultVegasLimit(nm("vegas"), lg, reg)
 		case "default-with-limit":
-			l = limit.NewDefaultVegasLimitWithLimit("vegas", c.Initial, lg, reg)
+			l = limit.NewDefaultVegasLimitWithLimit(nm("vegas"), c.Initial, lg, reg)
 		}
 		a.Inner = l
 		a.Lo, a.Hi = 1, maxInt(c.Max, c.Initial)
@@ -203,27 +211,27 @@ func buildAlgo(c algoCfg, withRegistry bool) (*algo, error) {
 			qf = functions.SqrtRootFunction(4)
 		}
 		a.qfunc = qf
-		l := limit.NewGradientLimitWithRegistry("gradient", c.Initial, c.Min, c.Max, c.Smoothing, qf, c.Tolerance, c.ProbeInterval, lg, reg)
+		l := limit.NewGradientLimitWithRegistry(nm("gradient"), c.Initial, c.Min, c.Max, c.Smoothing, qf, c.Tolerance, c.ProbeInterval, lg, reg)
 		a.Inner = l
 		a.Lo, a.Hi = maxInt(1, c.Min), maxInt(c.Max, c.Initial)
 		a.NoLoad = l.RTTNoLoad
 	case "gradient2":
 		qf := functions.FixedQueueSizeFunc(c.QFix)
 		a.qfunc = qf
-		l, err := limit.NewGradient2Limit("gradient2", c.Initial, c.Max, c.Min, qf, c.Smoothing, c.LongWindow, lg, reg)
+		l, err := limit.NewGradient2Limit(nm("gradient2"), c.Initial, c.Max, c.Min, qf, c.Smoothing, c.LongWindow, lg, reg)
 		if err != nil {
 			return nil, err
 		}
 		if c.Ctor == "default" {
-			l = limit.NewDefaultGradient2Limit("gradient2", lg, reg)
+			l = limit.NewDefaultGradient2Limit(nm("gradient2"), lg, reg)
 		}
 		a.Inner = l
 		a.Lo, a.Hi = maxInt(1, c.Min), maxInt(c.Max, c.Initial)
 	case "settable":
-		a.Inner = limit.NewSettableLimit("settable", c.Initial, reg)
+		a.Inner = limit.NewSettableLimit(nm("settable"), c.Initial, reg)
 		a.Lo, a.Hi = math.MinInt32, math.MaxInt32
 	case "fixed":
-		a.Inner = limit.NewFixedLimit("fixed", c.Initial, reg)
+		a.Inner = limit.NewFixedLimit(nm("fixed"), c.Initial, reg)
 		a.Lo, a.Hi = c.Initial, c.Initial
 	default:
 		return nil, fmt.Errorf("unknown algorithm %q", c.Name)
@@ -460,6 +468,9 @@ func boolInt(b bool) int {
 func safeSample(l core.Limit, s Sample) (panicked any) {
 	defer func() {
 		if e := recover(); e != nil {
+			if wb, ok := e.(verifsim.WouldBlock); ok {
+				panic(wb) // not a panic of the library: the armed lock probe (see Prop.ArmLockProbes)
+			}
 			panicked = e
 		}
 	}()
@@ -470,6 +481,9 @@ func safeSample(l core.Limit, s Sample) (panicked any) {
 func safeEstimate(l core.Limit) (v int, panicked any) {
 	defer func() {
 		if e := recover(); e != nil {
+			if wb, ok := e.(verifsim.WouldBlock); ok {
+				panic(wb)
+			}
 			panicked = e
 		}
 	}()
